@@ -46,7 +46,7 @@ static int set_token(BufrDescriptor *b, char *tok){
       case TYPE_NUMERIC: { if(raw==ones && !(b->flags & FLAG_CLASS31)) return 0; int64_t iv = (int64_t)raw + b->encoding.reference;
         if(b->value->type==VALTYPE_INT32||b->value->type==VALTYPE_INT8) return bufr_descriptor_set_ivalue(b,(int)iv)<0?-1:0;
         if(b->value->type==VALTYPE_INT64) return bufr_value_set_int64(b->value,iv)<0?-1:0;
-        { double d=(double)iv; if(b->encoding.scale) d = d / pow(10.0,(double)b->encoding.scale); return bufr_descriptor_set_dvalue(b,d)<0?-1:0; } }
+        { double d=(double)iv; if(b->encoding.scale>0) d = d / pow(10.0,(double)b->encoding.scale); else if(b->encoding.scale<0) d = d * pow(10.0,(double)(-b->encoding.scale)); return bufr_descriptor_set_dvalue(b,d)<0?-1:0; } }
       case TYPE_CODETABLE: case TYPE_FLAGTABLE: if(raw==ones && !(b->flags & FLAG_CLASS31)) return 0;
         if(b->value->type==VALTYPE_INT64) return bufr_value_set_int64(b->value,(int64_t)raw)<0?-1:0; return bufr_descriptor_set_ivalue(b,(int)raw)<0?-1:0;
       case TYPE_CHNG_REF_VAL_OP: { uint64_t half=1ULL<<(w-1); int v = raw>=half ? -(int)(raw-half) : (int)raw; return bufr_descriptor_set_ivalue(b,v)<0?-1:0; }
